@@ -99,6 +99,66 @@ fn lerp_other<T: Tier>(rep: &mut Report) {
         },
     );
 }
+/// float tiers: end points a few roundings apart and large amounts. `lerp` is a + (b - a) t for every a, b: a
+/// short cut for "b - a is zero" decided with a tolerance (the approximate `is_zero` of quaternions and matrices) returns
+/// a where the statement moves by t (b - a)
+fn lerp_near<T: Tier + Dom<M = Sh>>(rep: &mut Report) {
+    // how far b is from a, component by component (relative, then absolute)
+    let deltas: [(&str, f64, f64); 5] = [("2 roundings", 4.0 * T::U, 0.0), ("8 roundings", 16.0 * T::U, 0.0), ("epsilon/2 absolute", 0.0, T::U), ("1e-9 relative", 1e-9, 0.0), ("5e-7 absolute", 0.0, 5e-7)];
+    let ts: [f64; 5] = [1.0, 0.5, 3.0, 1048576.0, 1099511627776.0];
+    let nb = 3;
+    rep.cases(
+        "lerp/nearby-end-points",
+        T::NAME,
+        "3 generic a x 5 distances of b from a (a few roundings ... 5e-7, every component) x amounts {1, 1/2, 3, 2^20, 2^40}; Vector1-4, Quaternion, Matrix2-4",
+        nb * deltas.len() * ts.len(),
+        Guard::states(30).distinct(10),
+        |i, ctx| {
+            let d = alphabet::decode(i, &[nb, deltas.len(), ts.len()]);
+            let g: Vec<T> = alphabet::generic(16, d[0]).iter().map(|&r| rq::<T>(r) / T::int(8)).collect();
+            let (_, rel, abs) = deltas[d[1]];
+            let c = |x: f64| num_traits::cast::<f64, T>(x).unwrap();
+            // (a distance below the spacing of the floats at x becomes two roundings: b differs from a in every component)
+            let h: Vec<T> = g.iter().enumerate().map(|(j, x)| {
+                let y = c(x.f() * (1.0 + rel * (1 + j % 3) as f64) + abs * (1 + j % 2) as f64);
+                if y == *x { c(x.f() * (1.0 + 4.0 * T::U)) } else { y }
+            }).collect();
+            let t: T = c(ts[d[2]]);
+            ctx.describe(|| format!("b = a moved by {} in every component, t = {:?}, a = {:?}", deltas[d[1]].0, t, g));
+            ctx.out(&d);
+            assert!(g.iter().zip(&h).all(|(x, y)| x != y), "harness: b equals a in a component");
+            let mt = t.lift();
+            let mut judge = |name: &str, got: Vec<T>, n: usize| {
+                let want: Vec<Sh> = (0..n).map(|j| g[j].lift() + (h[j].lift() - g[j].lift()) * mt).collect();
+                eq_slice::<T>(ctx, &key(&format!("lerp/{name}/nearby")), &got, &want, 1.0);
+                if ts[d[2]] == 1.0 {
+                    // "hence b at t = 1": to a fraction of the distance between the end points (plus two roundings)
+                    ctx.t();
+                    let ok = (0..n).all(|j| (got[j].f() - h[j].f()).abs() <= 0.25 * (h[j].f() - g[j].f()).abs() + 4.0 * T::U * h[j].f().abs());
+                    if !ok {
+                        ctx.fail(&key(&format!("lerp/{name}/t=1-is-b")), || format!("lerp(a,b,1) = {:?}, b = {:?}", got, &h[..n]));
+                    }
+                }
+            };
+            let a = |n: usize| -> Vec<T> { g[..n].to_vec() };
+            let b = |n: usize| -> Vec<T> { h[..n].to_vec() };
+            let arr = |v: Vec<T>| -> [T; 4] { [v[0], v[1], v[2], v[3]] };
+            judge("Vector1", v1(mk_v1([g[0]]).lerp(mk_v1([h[0]]), t)).to_vec(), 1);
+            judge("Vector2", v2(mk_v2([g[0], g[1]]).lerp(mk_v2([h[0], h[1]]), t)).to_vec(), 2);
+            judge("Vector3", v3(mk_v3([g[0], g[1], g[2]]).lerp(mk_v3([h[0], h[1], h[2]]), t)).to_vec(), 3);
+            judge("Vector4", v4(mk_v4(arr(a(4))).lerp(mk_v4(arr(b(4))), t)).to_vec(), 4);
+            judge("Quaternion", qa(mk_q(arr(a(4))).lerp(mk_q(arr(b(4))), t)).to_vec(), 4);
+            let m = |v: &Vec<T>, n: usize| -> Vec<Vec<T>> { (0..n).map(|cc| v[cc * n..cc * n + n].to_vec()).collect() };
+            let (ga, hb) = (g.clone(), h.clone());
+            let m2a = |v: &Vec<T>| -> [[T; 2]; 2] { let x = m(v, 2); [[x[0][0], x[0][1]], [x[1][0], x[1][1]]] };
+            let m3a = |v: &Vec<T>| -> [[T; 3]; 3] { let x = m(v, 3); std::array::from_fn(|cc| std::array::from_fn(|r| x[cc][r])) };
+            let m4a = |v: &Vec<T>| -> [[T; 4]; 4] { let x = m(v, 4); std::array::from_fn(|cc| std::array::from_fn(|r| x[cc][r])) };
+            judge("Matrix2", flat_m(m2(mk_m2(m2a(&ga)).lerp(mk_m2(m2a(&hb)), t))), 4);
+            judge("Matrix3", flat_m(m3(mk_m3(m3a(&ga)).lerp(mk_m3(m3a(&hb)), t))), 9);
+            judge("Matrix4", flat_m(m4(mk_m4(m4a(&ga)).lerp(mk_m4(m4a(&hb)), t))), 16);
+        },
+    );
+}
 fn lerp_all<D: Dom>(rep: &mut Report) {
     lerp_vec::<D, Vector1<D>, 1>(rep);
     lerp_vec::<D, Vector2<D>, 2>(rep);
@@ -338,6 +398,8 @@ fn main() {
     lerp_other::<Ex>(&mut rep);
     lerp_other::<f64>(&mut rep);
     lerp_other::<f32>(&mut rep);
+    lerp_near::<f64>(&mut rep);
+    lerp_near::<f32>(&mut rep);
     lattice(&mut rep);
     sphere::<f64>(&mut rep);
     sphere::<f32>(&mut rep);
